@@ -182,6 +182,8 @@ pub struct DecOut<T> {
     pub body: Arc<BodyStats>,
     pub polls: usize,
     pub trailers: Option<Result<Option<tonic::metadata::MetadataMap>, Status>>,
+    /// number of DATA steps the body had delivered when each item of `seq` was produced
+    pub data_steps_at: Vec<usize>,
 }
 
 impl<T> DecOut<T> {
@@ -243,6 +245,7 @@ where
         body: bstats,
         polls: 0,
         trailers: None,
+        data_steps_at: Vec::new(),
     };
     // every 5 bytes could at most be one (empty) message
     let item_budget = total_bytes / 5 + nsteps + 8;
@@ -270,6 +273,8 @@ where
                 break;
             }
         }
+        out.data_steps_at
+            .push(out.body.data_steps_delivered.load(std::sync::atomic::Ordering::SeqCst));
         if terminal_seen {
             if extra_left == 0 {
                 break;
